@@ -9,7 +9,7 @@ import (
 
 func init() {
 	registerProperty(&Property{
-		ID: "C12",
+		ID:          "C12",
 		Explanation: "Decides structural necessary conditions of reuse/rescan/discard: (R1) every function that moves a task it found OK into RUNNING (the discard hand-over state) brings it to a state >= OK again on every exit, following calls into the module's own discard helpers; (R2) the local executor drops the buffer and marks the task LOST inside one critical section of the task lock, only when it found the task OK, and broadcasts; (R3) compiling a reused Result returns the Result's own tasks unless a shuffle is requested, refuses tasks with combiners, and otherwise inserts tasks that depend one-to-one on partition 0 of the old tasks (their partition fields are C05-R5); (R4) every Executor.Reader answers a task without stored output with an error reader, never an empty one; (R5) a Result is scanned by opening reader i on task i, partition 0, and concatenating them in index order; (R6) both executors refuse to discard tasks that share a machine combiner. Not decided: that rows after recomputation equal those of the first evaluation.",
 		Rules: []Rule{
 			{ID: "C12-R1", Doc: "discard leaves no task parked in RUNNING", Run: c12r1},
@@ -19,6 +19,9 @@ func init() {
 			{ID: "C12-R4", Doc: "reading a task without output is an error", Run: c12r4},
 			{ID: "C12-R5", Doc: "scan order", Run: c12r5},
 			{ID: "C12-R6", Doc: "shared combiners are not discarded", Run: c12r6},
+			{ID: "C08-R2", Doc: "re-shuffle tasks of a reused result get names minted by the namer, so two re-shuffles of one result never share a task name (shared)", Run: c08r2},
+			{ID: "C16-R5", Doc: "a worker receives the invocations behind Result arguments dependencies-first (shared)", Run: c16r5},
+			{ID: "C03-R4", Doc: "recomputation after discard/loss is not limited by earlier, recovered losses (shared)", Run: c03r4},
 		},
 	})
 }
